@@ -38,9 +38,9 @@ type transSpec struct {
 	params   []leanParam
 	exprs    map[string]string // Go expression text -> Lean expression
 	outs     []outVar
-	opaque   []string // assignment targets (source text) that are abstracted away
-	retBool  bool     // function returns bool (else: error; nil ↦ 0, k-th non-nil return in source order ↦ k)
-	after    string   // if set: translate only the statements after the first top-level statement whose text starts with this
+	opaque   []string                             // assignment targets (source text) that are abstracted away
+	retBool  bool                                 // function returns bool (else: error; nil ↦ 0, k-th non-nil return in source order ↦ k)
+	after    string                               // if set: translate only the statements after the first top-level statement whose text starts with this
 	consts   map[string]map[string]constant.Value // imported package name -> const name -> value
 }
 
@@ -431,7 +431,7 @@ func genDecisions(repo, out string) error {
 	}{
 		{sec, transSpec{
 			pkg: "security", fn: "negotiateSecurity", leanName: "negotiateSecurity",
-			doc: "security.(*Authenticator).negotiateSecurity: the level logic, given whether the two method searches found something.",
+			doc:    "security.(*Authenticator).negotiateSecurity: the level logic, given whether the two method searches found something.",
 			params: []leanParam{{"sAuth", "String"}, {"cAuth", "String"}, {"sEnc", "String"}, {"cEnc", "String"}, {"haveAuth", "Bool"}, {"haveCrypto", "Bool"}},
 			exprs: map[string]string{
 				"negotiation.ServerConfig.Authentication": "sAuth",
